@@ -593,6 +593,11 @@ func (fr *Frame) callStatic(fn *ssa.Function, bind []Val, args []Val, c *ssa.Cal
 		if mc, ok := a.(*ssa.MakeClosure); ok {
 			ws.add(e.funcWrites(mc.Fn.(*ssa.Function), 1))
 		}
+		if mi, ok := a.(*ssa.MakeInterface); ok && !e.isOlric(fn) && strings.Contains(fn.Name(), "Unmarshal") {
+			// a decoder writes through the pointer it is handed as interface{}: the static parameter type
+			// says nothing, the dynamic type at this call site does
+			e.typeReachFams(mi.X.Type(), ws, 1)
+		}
 	}
 	if ws.all {
 		vc.note("callee with unknown footprint: whole heap havocked at call to " + key)
